@@ -11,7 +11,8 @@ CLAIMED = {
         "NoDeadlock, Termination); every edge of the dumped state graph is replayed lock-step on the real strax.Mailbox "
         "under a deterministic scheduler (projected state, thread pcs and enabled sets compared), and seeded random real "
         "schedules are validated by TLC against the spec (MailboxTrace.tla). Bisimulation on the bounded instances lifts "
-        "TLC's all-schedules verdict to the code.",
+        "TLC's all-schedules verdict to the code. strax.divide_outputs feeding 2-3 mailboxes (eager / lazy / flow_freely) is run "
+        "under random schedules and judged by TLC at the P-level (MailboxObs.tla).",
    note="Trusted: TLC, dsched (harness/dsched.py) faithfully serialising threading primitives, timeouts never fire, "
         "shared mailbox state is only touched under Mailbox._lock. Bounded: <=3 subscribers, <=5 messages, capacity<=4.",
    technique="TLA+ model checking (TLC) + lock-step replay of the TLC state graph into the real Mailbox + TLC trace validation",
